@@ -24,22 +24,24 @@ P = {
          TRUST + '; json/expat and float() trusted for token->number conversion', GEN % ('TypeGen BFS + simulation', 'Trace_Text')),
  'C03': ('X.690 DER written clause by clause (X690.tla); every recorded DER encoding must equal DerEnc(T,v) and, independently, satisfy '
          'the type-independent IsDer predicate over a TLV parse (two formulations); ModelProps.tla checks on the model that DerEnc is '
-         'canonical w.r.t. AbsEq and satisfies IsDer; the encode calls of the repository\'s own DER tests are recorded and judged too',
+         'canonical w.r.t. AbsEq and satisfies IsDer, and that the independently written BER value reader (X690ValueReader.tla) reads it '
+         'back as v; the encode calls of the repository\'s own DER tests are recorded and judged too',
          TRUST, GEN % ('TypeGen BFS + simulation', 'Trace_Codec')),
  'C04': ('TlvRewrite.tla: a transition system over annotated TLV trees whose actions are the serialisation freedoms of X.690 BER '
          '(non-minimal long-form lengths, indefinite length + EOC, constructed/segmented strings nested to depth 3, SET / SET OF '
          'permutation) applied to any node; TLC checks on the model that every reachable variant parses back to the distinguished tree '
-         '(mutant serialisers must fail) and emits the variants - from TypeGen values and, type-agnostically, from the encodings '
+         'and, with the BER value reader of X690ValueReader.tla, as the original value (mutant serialisers must fail) and emits the variants - from TypeGen values and, type-agnostically, from the encodings '
          'tests/test_ber.py decodes; the real BER decoder decodes every variant; Trace_Rewrite.tla requires the original value',
          TRUST, GEN % ('TlvRewrite BFS to R rewrite steps + simulation of mixtures', 'Trace_Rewrite')),
  'C05': ('X.691 clauses 10-30 written clause by clause for both variants (X691.tla: constrained/semi-constrained/unconstrained whole '
          'numbers, length determinants with 16K fragmentation, normally small numbers, extension bits, open types, preambles, '
          'CHOICE/ENUMERATED indices, known-multiplier packing, alignment); every recorded PER/UPER encoding must equal PerEncode(T,v) '
          'or be explained by a *listed* named deviation; the model reproduces the X.691 Annex A records exercised by the '
-         'repository\'s tests (binding B on tests/test_uper.py, test_per.py)', TRUST, GEN % ('TypeGen BFS + simulation', 'Trace_Codec')),
+         'repository\'s tests (binding B on tests/test_uper.py, test_per.py); X691Reader.tla, an independently written reader, inverts the '
+         'encoder model and consumes exactly the encoding over the same universe (PerReaderInverts)', TRUST, GEN % ('TypeGen BFS + simulation', 'Trace_Codec')),
  'C06': ('X.696 Basic OER written clause by clause (X696.tla); every recorded OER encoding must equal OerEncode(T,v) (sender\'s '
          'options of Basic-OER modelled as options, not deviations) or be explained by a listed named deviation; the repository\'s '
-         'OER tests ("Overview of OER" vectors) are recorded and judged too', TRUST, GEN % ('TypeGen BFS + simulation', 'Trace_Codec')),
+         'OER tests ("Overview of OER" vectors) are recorded and judged too; X696Reader.tla inverts the encoder model (OerReaderInverts)', TRUST, GEN % ('TypeGen BFS + simulation', 'Trace_Codec')),
  'C07': ('Extend.tla: a transition system over pairs (V1,V2) - one legal extension step per action at any extensible node of any '
          'depth, incl. large additions; Project/ProjEq/Lift define the version-1 view; TLC checks ProjectionSound on the model and '
          'emits pairs; both versions are compiled and cross-decoded by ber, der, per, uper, oer, jer, xer; Trace_Extend.tla judges',
@@ -94,7 +96,8 @@ P = {
          'Trace_Probe.tla compares', TRUST, GEN % ('LengthProbe BFS', 'Trace_Probe')),
  'C16': ('every byte prefix (all for short encodings; boundaries + samples for long ones) of every valid BER/DER/PER/UPER/OER encoding '
          'from TypeGen\'s universe is decoded by the real decoders; Trace_Codec.tla requires asn1tools DecodeError in the exception MRO, '
-         'never a value, never a foreign exception; ModelProps.tla checks prefix-freeness of the TLV model',
+         'never a value, never a foreign exception; ModelProps.tla checks on the model that no strict prefix of a BER/DER, PER/UPER or OER '
+         'encoding can be read (PrefixFreeTlv, PerPrefixFree, OerPrefixFree with the reader modules)',
          TRUST, GEN % ('TypeGen BFS + simulation', 'Trace_Codec')),
  'C17': ('Cache.tla: files x versions, the store (complete / partial / corrupt entries), the writer\'s program counter through '
          '_compile_files_cache and diskcache\'s store steps, with Call / EditFile / Kill (at every pc) / CorruptEntry actions and the key '
